@@ -16,6 +16,7 @@ from geo import sc, rect_in, rect_out, rects_out, bb, exact_overlap, rect_dict
 from frame.geometry.geometry import Rectangle, Point
 
 LEVEL = "proof"
+DRIVERS = ["drv_geom"]
 TRUSTED = [
     "Lean 4.33 kernel; Mathlib lemmas; axioms ⊆ {propext, Classical.choice, Quot.sound}",
     "hand-written model FV/Model/Geom.lean — fidelity to frame/geometry/geometry.py checked by this correspondence run, not proved",
